@@ -4,7 +4,7 @@
    the occupancy split, the serial wrap, and "no made-up value".  The refinement read_pdb (render recs) = denote recs is
    established by correspondence only (see the level note). *)
 From Coq Require Import List Ascii String ZArith QArith Bool Lia.
-From PV Require Import Base.Sx Base.Text Base.Float Base.Group Spec.Hier Spec.PdbSpec Model.AddAtom Model.PdbLex Model.PdbParse Proofs.Decimal Proofs.C01just Proofs.C01line Proofs.C01group Gen.PdbColumns Spec.PdbColumnsDoc.
+From PV Require Import Base.Sx Base.Text Base.Float Base.Group Spec.Hier Spec.PdbSpec Model.AddAtom Model.PdbLex Model.PdbParse Proofs.Decimal Proofs.C01just Proofs.C01line Proofs.C01group Proofs.C01sim Gen.PdbColumns Spec.PdbColumnsDoc.
 Import ListNotations.
 
 (* 1. inside a model: exactly one chain per chain id, in order of first appearance (and likewise one residue per key, one
@@ -113,6 +113,25 @@ Theorem C01_reader_atom_run dh fo (its : list (Z * lexitem)) s : Forall (fun x =
   abs_cur (s_cur (run_items dh fo s its)) = spec_chains atom (map key_of (atom_events dh fo s its)).
 Proof. exact (atom_run_from_empty dh fo its s). Qed.
 
+(* 13. the record loop of the reader model simulates the walk of the specification on coordinate records: in corresponding
+       states (the same wrap offsets, last numbers, TER count, next atom identity, and the model being built equal to the
+       partition of the walk's keyed atoms) a well-formed record - lexed to item_of (theorem 8 and 15 for the text side) -
+       leads to corresponding states: the same offsets, chain name, atom (every field), keys *)
+Theorem C01_reader_step_simulates_walk : forall fo w s ln a, sim w s -> wf_rec a ->
+  sim (walk_step w (RAtom a)) (step_item false fo s ln (item_of a)).
+Proof. exact sim_atom. Qed.
+(* 14. so from the start of a file, for every run of well-formed coordinate and TER records, the model the reader is building
+       is exactly the first-appearance partition of the keyed atoms the specification's walk collects *)
+Theorem C01_reader_refines_walk_on_coordinate_runs : forall fo (rs : list (Z * rec)), Forall (fun x => chain_rec (snd x)) rs ->
+  abs_cur (s_cur (fold_left (fun s x => step_item false fo s (fst x) (item_of_rec (snd x))) rs st0)) =
+  spec_chains atom (w_cur (fold_left walk_step (map snd rs) walk0)).
+Proof. exact reader_refines_walk. Qed.
+(* 15. a decimal numeral standing in a field is read as the value the specification gives that text *)
+Theorem C01_numeral_field_is_the_specified_value : forall neg ds1 ds2, all_digit ds1 -> ds1 <> [] -> all_digit ds2 -> ds2 <> [] ->
+  let t := with_sign neg (ds1 ++ "."%char :: ds2) in
+  finite_f (dec t) = true -> parse_f64_field t = Some (dec t).
+Proof. exact numeral_field_is_dec. Qed.
+
 Print Assumptions C01_one_chain_per_id.
 Print Assumptions C01_occupancy_split_adds_up.
 Print Assumptions C01_wrap_continues.
@@ -126,3 +145,6 @@ Print Assumptions C01_reader_columns_are_the_documented_columns.
 Print Assumptions C01_reader_atom_record_is_an_insert.
 Print Assumptions C01_reader_groups_by_first_appearance.
 Print Assumptions C01_reader_atom_run.
+Print Assumptions C01_reader_step_simulates_walk.
+Print Assumptions C01_reader_refines_walk_on_coordinate_runs.
+Print Assumptions C01_numeral_field_is_the_specified_value.
